@@ -316,6 +316,18 @@ def r_validator_overrides_all(r, prog):
     r.floor(12)
 
 
+
+def r_validator_visits_every_file(r, prog):
+    f = prog.fn('slicec::validators::validate_ast')
+    vs = [c for c in f.calls() if c.name() == 'visit_with' and not f.blocks[c.bb].get('cleanup')]
+    lp = loop_of(f, vs[0].bb) if vs else None
+    recv = vexpr(f, vs[0].args[0], depth=8) if vs else ''
+    if len(vs) == 1 and lp is not None and recv in ('next(into_iter(arg1.files)) as Some.0', 'next(iter(arg1.files)) as Some.0'):
+        r.ok('the validators walk every file of the compilation state, in the order of the file list')
+    else:
+        r.finding('validator-does-not-walk-the-file-list', f.span, 'validate_ast calls visit_with on %s: files reached through another collection can be merged, dropped or reordered' % (recv[:80] or 'nothing'))
+    r.floor(1)
+
 def run(ctx):
     prog = ctx.prog
     ctx.run_rule('C20.1', 'T6', 'each visit_with calls exactly its own callback once, first', r_callbacks, prog)
@@ -324,3 +336,4 @@ def run(ctx):
     ctx.run_rule('C20.4', 'T2', 'type references: not descended when unpatched; nested types by direct recursion', r_typeref, prog)
     ctx.run_rule('C20.5', 'T4', 'file: file, module, every definition dispatched to its own visit_with', r_file, prog)
     ctx.run_rule('C20.6', 'T5', 'the validator overrides every Visitor method', r_validator_overrides_all, prog)
+    ctx.run_rule('C20.7', 'T10', 'the validators visit every file of the file list', r_validator_visits_every_file, prog)
